@@ -413,7 +413,8 @@ def written_skr_problems(sc, res, exp) -> list[str]:
     if len(rbs) != len(exp[1]):
         return [f"written SKR has {len(rbs)} bundles for {len(exp[1])} request bundles"]
     for rb, e in zip(rbs, exp[1]):
-        if (rb.get("id"), rb.findtext("Inception"), rb.findtext("Expiration")) != (e["id"], ksrxml.fmt_dt(e["inc"]), ksrxml.fmt_dt(e["exp"])):
+        import etread
+        if (rb.get("id"), etread.when(rb.findtext("Inception")), etread.when(rb.findtext("Expiration"))) != (e["id"], e["inc"], e["exp"]):
             probs.append(f"written bundle {e['id']}: id/inception/expiration not copied")
         got = sorted((k.get("keyIdentifier"), int(k.get("keyTag")), int(k.findtext("TTL")), int(k.findtext("Flags")), int(k.findtext("Protocol")), int(k.findtext("Algorithm")),
                       base64.b64decode(k.findtext("PublicKey"))) for k in rb.findall("Key"))
